@@ -206,6 +206,15 @@ func init() {
 				hs.Println(hs.S("body"), hs.V("i")))}
 			return mainOnly([]*hs.Func{pick}, hs.Println(hs.CallN("pick", hs.I(1)), hs.CallN("pick", hs.I(2)), hs.CallN("pick", hs.I(3))), loop, hs.Println(hs.S("end")))
 		}},
+		callCase{"string-indexing-with-multi-byte-characters", func() *hs.Program {
+			// indices that are in range whichever unit (bytes or characters) the bounds are counted in;
+			// what an index denotes is left to C18, that the backends agree is not
+			p := mainOnly(nil, hs.LetS("s", hs.S("añb")), hs.LetS("t", hs.S("é€x")),
+				hs.Println(hs.Idx(hs.V("s"), hs.I(0)), hs.Idx(hs.V("s"), hs.I(-1)), hs.Idx(hs.V("s"), hs.I(2)), hs.Idx(hs.V("s"), hs.I(-3))),
+				hs.Println(hs.Idx(hs.V("t"), hs.I(0)), hs.Idx(hs.V("t"), hs.I(-1)), hs.Idx(hs.V("t"), hs.I(1)), hs.Idx(hs.V("t"), hs.I(2)), hs.Idx(hs.V("t"), hs.I(-2)), hs.Idx(hs.V("t"), hs.I(-3))),
+				hs.Println(hs.MCall(hs.V("s"), "len"), hs.MCall(hs.V("t"), "len")))
+			return p
+		}},
 		callCase{"null-function-as-statement-and-value", func() *hs.Program {
 			f := hs.Fn("side", nil, hs.Blk(nil, hs.Println(hs.S("side"), hs.V("a"))), intP("a"))
 			return mainOnly([]*hs.Func{f}, hs.ES(hs.CallN("side", hs.I(1))), hs.ES(hs.CallN("side", hs.I(2))), hs.LetS("k", hs.I(3)), hs.Println(hs.V("k")))
@@ -225,7 +234,8 @@ func init() {
 
 func callGen(idx int) (progCase, bool) {
 	c := callCases[idx]
-	return mkCase(c.prog(), "call:"+c.name), true
+	tags := []string{"call:" + c.name}
+	return mkCase(c.prog(), tags...), true
 }
 
 func init() {
